@@ -122,7 +122,15 @@ pub fn events(hexs: &str) -> String {
     let bytes = unhex(hexs);
     let mut parser = Parser::<anstyle_parse::DefaultCharAccumulator>::new();
     let mut rec = Rec::default();
-    for b in bytes {
+    // a parser is a value in every feature configuration: at input-dependent positions the run goes on with a clone
+    let h = bytes.iter().fold(5usize, |a, b| a.wrapping_mul(33).wrapping_add(*b as usize));
+    let every = [0usize, 1, 3, 7][h % 4];
+    for (i, b) in bytes.into_iter().enumerate() {
+        if every != 0 && (i + h / 4) % every == 0 {
+            let copy = parser.clone();
+            assert!(copy == parser, "Clone / PartialEq for Parser");
+            parser = copy;
+        }
         parser.advance(&mut rec, b);
     }
     rec.out
